@@ -70,10 +70,17 @@ add("C09", "exploration", [
 ])
 
 add("C20", "exploration", [
-    {"name": "c20-laws", "bin": "c20", "pkg": ZZ + "c20", "run": "^TestVerifC20Laws$",
+    {"name": "c20-laws", "bin": "c20", "pkg": ZZ + "c20", "run": "^TestVerifC20(Laws|KnownReduceCombiner)$",
      "shards": {"quick": 4, "thorough": 8}, "checks": {"quick": 2000, "thorough": 100000},
      "timeout": {"quick": 300, "thorough": 2400}},
     {"name": "c20-e2e", "bin": "c20", "pkg": ZZ + "c20", "run": "^TestVerifC20EndToEnd$",
      "shards": {"quick": 8, "thorough": 12}, "checks": {"quick": 60, "thorough": 3000},
      "timeout": {"quick": 600, "thorough": 3000}},
+])
+
+add("C06", "fault_enumeration", [
+    {"name": "c06-matrix", "bin": "c06", "pkg": ZZ + "c06", "run": "^TestVerifC06Matrix$",
+     "shards": {"quick": 12, "thorough": 16}, "timeout": {"quick": 900, "thorough": 3000}},
+    {"name": "c06-random", "bin": "c06", "pkg": ZZ + "c06", "run": "^TestVerifC06Random$", "tier_only": "thorough",
+     "shards": {"thorough": 12}, "checks": {"thorough": 40}, "timeout": {"thorough": 3000}, "shrinktime": "60s"},
 ])
